@@ -67,16 +67,16 @@ package ice
 //@   ghostvar selectedBefore int = 0
 //@   site store state#1 ghost lastBefore := ite(s.lastConfirmedNomination != nil, *s.lastConfirmedNomination, 0 - 1)
 //@   site store state#1 ghost selectedBefore := s.agent.getSelectedPair()
-//@   site store state#1 ghost stale := pendingRequest.isUseCandidate && pendingRequest.nominationValue != nil && s.lastConfirmedNomination != nil && *pendingRequest.nominationValue < *s.lastConfirmedNomination
-//@   site store state#1 ghost mustSwitch := pendingRequest.isUseCandidate && ((pendingRequest.nominationValue != nil && (s.lastConfirmedNomination == nil || *pendingRequest.nominationValue >= *s.lastConfirmedNomination)) || (pendingRequest.nominationValue == nil && s.agent.getSelectedPair() == nil))
+//@   site store state#1 ghost stale := pendingRequest.isUseCandidate && pendingRequest.nominationValue != nil && s.lastConfirmedNomination != nil && *pendingRequest.nominationValue <= *s.lastConfirmedNomination
+//@   site store state#1 ghost mustSwitch := pendingRequest.isUseCandidate && ((pendingRequest.nominationValue != nil && (s.lastConfirmedNomination == nil || *pendingRequest.nominationValue > *s.lastConfirmedNomination)) || (pendingRequest.nominationValue == nil && s.agent.getSelectedPair() == nil))
 //@   ghostvar newest bool = false
 //@   ghostvar val int = 0
-//@   site store state#1 ghost newest := pendingRequest.isUseCandidate && pendingRequest.nominationValue != nil && (s.lastConfirmedNomination == nil || *pendingRequest.nominationValue >= *s.lastConfirmedNomination)
+//@   site store state#1 ghost newest := pendingRequest.isUseCandidate && pendingRequest.nominationValue != nil && (s.lastConfirmedNomination == nil || *pendingRequest.nominationValue > *s.lastConfirmedNomination)
 //@   site store state#1 ghost val := ite(pendingRequest.nominationValue != nil, *pendingRequest.nominationValue, 0)
 //@   ensures C20 the-newest-confirmed-value-is-remembered-even-if-its-pair-was-already-selected: newest ==> s.lastConfirmedNomination != nil && *s.lastConfirmedNomination == val
 //@   ensures C20 confirmed-nomination-is-selected: mustSwitch ==> s.agent.getSelectedPair() == cast(target, *CandidatePair)
 //@   ensures C20 a-late-response-to-an-older-nomination-changes-no-selection: stale ==> s.agent.getSelectedPair() == cast(selectedBefore, *CandidatePair)
-//@   site call setSelectedPair#1 assert C20 never-back-to-an-older-nomination: *pendingRequest.nominationValue >= lastBefore && s.lastConfirmedNomination != nil && *s.lastConfirmedNomination == *pendingRequest.nominationValue
+//@   site call setSelectedPair#1 assert C20 never-back-to-an-older-nomination: *pendingRequest.nominationValue > lastBefore && s.lastConfirmedNomination != nil && *s.lastConfirmedNomination == *pendingRequest.nominationValue
 //@   site call handleInboundBindingSuccess#1 ghost s.agent.gTxOK := result0
 //@   site call responseSymmetric#1 assert C02 symmetric-check-after-transaction: s.agent.gTxOK && arg0 == pendingRequest
 //@   site call responseSymmetric#1 ghost s.agent.gSymOK := result
